@@ -97,3 +97,10 @@ Definition dstep (s : pstate) (o : dop) : pstate :=
 (* protected against a caller: under legal hold, or COMPLIANCE not yet expired, or GOVERNANCE not yet expired *)
 Definition protected (s : pstate) : bool :=
   lock_enabled s && (hold s || match ret s with Some (_, true) => true | _ => false end).
+
+(* the version an upload creates (PutObject, CopyObject, CompleteMultipartUpload alike) in a lock-enabled bucket: the retention the
+   request asked for, else the bucket's default rule at that moment (posix.go applyDefaultRetention), else none *)
+Definition uploaded (asked : option mode) (default_rule : option mode) (hold_on : bool) : pstate :=
+  {| present := true; hold := hold_on;
+     ret := match asked with Some m => Some (m, true) | None => match default_rule with Some m => Some (m, true) | None => None end end;
+     lock_enabled := true |}.
